@@ -124,6 +124,39 @@ pub fn run(op: &str, e: &Value, ctx: &mut Ctx) -> Result<Value, String> {
             let _ = b;
             Ok(o)
         }
+        // PKCS#8: a v2 document carries the public key next to the seed; decoding validates it like from_keypair_bytes does
+        #[cfg(feature = "pkcs8")]
+        "serde.pkcs8" => {
+            use ed25519_dalek::pkcs8::{self, DecodePrivateKey, DecodePublicKey, EncodePrivateKey, EncodePublicKey};
+            let seed = arr32(inp(e, 0)?)?;
+            let pubb = arr32(inp(e, 1)?)?;
+            let kp = pkcs8::KeypairBytes { secret_key: seed, public_key: Some(pkcs8::PublicKeyBytes(pubb)) };
+            let ok_try = SigningKey::try_from(&kp).is_ok();
+            let ok_der = match kp.to_pkcs8_der() {
+                Ok(der) => SigningKey::from_pkcs8_der(der.as_bytes()).is_ok(),
+                Err(_) => false,
+            };
+            let none = pkcs8::KeypairBytes { secret_key: seed, public_key: None };
+            let none_ok = SigningKey::try_from(&none).map(|k| k.to_bytes() == seed).unwrap_or(false);
+            // round trips of the library's own documents
+            let sk = SigningKey::from_bytes(&seed);
+            let rt = match sk.to_pkcs8_der() {
+                Ok(der) => SigningKey::from_pkcs8_der(der.as_bytes()).map(|k| k.to_bytes() == seed).unwrap_or(false),
+                Err(_) => false,
+            };
+            let vk = sk.verifying_key();
+            let rt_pub = match vk.to_public_key_der() {
+                Ok(der) => VerifyingKey::from_public_key_der(der.as_bytes()).map(|k| k.to_bytes() == vk.to_bytes()).unwrap_or(false),
+                Err(_) => false,
+            };
+            // a SubjectPublicKeyInfo document with arbitrary key bytes: accepted exactly like VerifyingKey::from_bytes
+            let spki_ok = match pkcs8::PublicKeyBytes(pubb).to_public_key_der() {
+                Ok(der) => VerifyingKey::from_public_key_der(der.as_bytes()).is_ok(),
+                Err(_) => false,
+            };
+            Ok(json!({"ok_try": ok_try, "ok_der": ok_der, "none_ok": none_ok, "rt": rt, "rt_pub": rt_pub, "spki_ok": spki_ok,
+                      "native_ok": VerifyingKey::from_bytes(&pubb).is_ok(), "vk": jbytes(&vk.to_bytes())}))
+        }
         "serde.de" => {
             // deserialise arbitrary wire data: in[0] = bincode bytes, "js" = JSON value
             let ty = e["ty"].as_str().ok_or("ty")?;
